@@ -1,9 +1,29 @@
 """C06: exported facts preserve every flow between externally visible sites.
 Theorems props/C06.v (model M1, Section Export); tie: correspondence of chooseSitesToExport / Export /
 gob round trip with the real engine; oracle: modular (facts) == monolithic (full graph) on the real engine."""
+import os
+
 from . import common
 from . import enginegen as eg
 from . import engine_suite as es
+from . import markers
+from . import wholetool as wt
+
+
+def export_flag_oracle(r):
+    """the engine model takes `exported` as given; this ties it to the code: for every site of every published fact, the
+    Exported flag the site carries must be what go/types says about the object declared at the site's position
+    (an exported symbol is externally visible whatever type declares it)"""
+    n, bad = 0, []
+    for f in r["facts"] or []:
+        for s, o in zip(f.get("sites") or [], f.get("siteobjs") or []):
+            if not o["found"]:
+                continue
+            n += 1
+            if o["exported"] != s["Exported"]:
+                bad.append("fact of %s: site `%s` (%s:%d:%d, object %s %s) carries Exported=%s, go/types says %s" % (
+                    f["pkg"], s["Repr"], s["File"], s["Line"], s["Col"], o["kind"], o["name"], s["Exported"], o["exported"]))
+    return n, bad
 
 
 def scope(sc):
@@ -158,6 +178,28 @@ def run(ctx):
                     bad.append((i, o))
     ctx.obligation("oracle on the real engine: modular analysis through facts == whole-graph analysis (conflict existence, verdicts of exported sites) on %d multi-package scenarios; %d failures fall outside the claimed domain (a controlled trigger left pending: F15)" % (len(multi), outside),
                    rc == 0 and not bad)
+    # whole tool: which sites are externally visible (corpus/c06: exported methods of unexported types reached through
+    # constructors, embedding, variables and interfaces; paths through unexported helpers), and the Exported flag of
+    # every site in every fact of the corpora against go/types
+    vd = os.path.join(common.VERIF, "corpus", "c06")
+    nm, mbad = markers.check_markers(vd)
+    ctx.obligation("whole tool on corpus/c06: %d marked cross-package uses of externally visible sites: reported iff nil reaches them" % nm, nm > 0 and not mbad)
+    nflag, fbad = 0, []
+    for m in [vd, os.path.join(common.VERIF, "corpus", "c15"), os.path.join(common.VERIF, "corpus", "c10"), os.path.join(common.VERIF, "corpus", "c03", "m4"),
+              os.path.join(common.VERIF, "corpus", "c03", "m12")]:
+        r, err = wt.analyze(m, sites=True)
+        if r is None:
+            fbad.append("run failed on %s: %s" % (m, err))
+            continue
+        k, b = export_flag_oracle(r)
+        nflag += k
+        fbad += ["%s: %s" % (os.path.relpath(m, common.VERIF), x) for x in b]
+    ctx.obligation("oracle on the real tool: the Exported flag of each of %d sites in published facts == go/types' Exported() of the object declared there" % nflag, nflag > 0 and not fbad)
+    for b in mbad[:2]:
+        ctx.violation("visible", "C06 fails on the real tool (a verdict or path on an externally visible site does not reach the importer): %s\nreplay: bin/harness analyze -dir corpus/c06\n" % b)
+    if not mbad:
+        for b in fbad[:2]:
+            ctx.violation("exported-flag", "C06: a site of an exported symbol is not treated as externally visible: %s\n" % b, found_input=False)
     panics = [i for i, l in enumerate(res["impl"]) if "F!" in l or "PANIC" in l]
     ctx.obligation("Export never panics on the real engine (theorem C06_export_total)", not panics)
 
